@@ -2,6 +2,7 @@
    Only property theorems here, each closed by [exact]; see Proofs/WireProofs.v for the proofs. *)
 From Coq Require Import List NArith Lia Bool.
 From MM Require Import Lib.Bytes Model.Wire Proofs.WireProofs Gen.FactsStream Gen.FactsControl.
+From MM Require Import Gen.FactsOutline.
 Import ListNotations.
 Open Scope N_scope.
 
@@ -15,6 +16,12 @@ Theorem c04_source_constants :
   stream_seq_size = 256 /\ stream_header_size = 4 /\ types_uint3_le = true /\
   (0 <? M) = true /\ (M <? 2 ^ 24) = true /\ utils_seq_ok = true.
 Proof. repeat split; vm_compute; reflexivity. Qed.
+
+(* the modules this property rests on define the functions, classes, methods and class-level names they defined when the
+   model was transcribed - nothing added (an override, a new helper in the path), removed or renamed *)
+Theorem c04_module_outlines : translated_outline = true /\ outline_stream_ok = true /\ outline_utils_ok = true.
+Proof. repeat split; reflexivity. Qed.
+
 
 Lemma Mpos : 0 < M. Proof. reflexivity. Qed.
 Lemma Mfits : M < 2 ^ 24. Proof. reflexivity. Qed.
